@@ -1535,6 +1535,10 @@ func (self *Node) should(t types.ValueType) error {
 }
 
 func (self *Node) nodeAt(i int) *Node {
+	/* the walk over unset slots below counts i down to -1, a negative index must not enter it */
+	if i < 0 {
+		return nil
+	}
 	var p *linkedNodes
 	if self.isLazy() {
 		_, stack := self.getParserAndArrayStack()
@@ -1559,6 +1563,10 @@ func (self *Node) nodeAt(i int) *Node {
 }
 
 func (self *Node) pairAt(i int) *Pair {
+	/* the walk over unset slots below counts i down to -1, a negative index must not enter it */
+	if i < 0 {
+		return nil
+	}
 	var p *linkedPairs
 	if self.isLazy() {
 		_, stack := self.getParserAndObjectStack()
